@@ -167,6 +167,57 @@ Fixpoint run_forms_state (forms : list text) (s : vm) (acc : list N) : list N :=
               run_forms_state r s' (acc ++ S_ " |"%string ++ o)
   end.
 
+(* ---------------- registers after each datum, evaluation by slices (77 budget) *)
+Fixpoint sliced_state_text_all (nsl : nat) (fuel : nat) (m x : N) (t : text) (s : vm) (acc : list N)
+    : list N * vm * N :=
+  match fuel with
+  | O => (acc ++ S_ " NOFUEL"%string, s, x)
+  | S f =>
+      match parse_text t with
+      | Ok (d, rest) =>
+          let '(r, x') :=
+            match prepare_eval d s with
+            | ROk _ s1 => resume nsl m x s1
+            | RErr e msg s1 => (ROk (Failed e msg None) s1, x)
+            | RPanic k => (RPanic k, x)
+            | RNoFuel => (RNoFuel, x)
+            end in
+          match r with
+          | ROk rr s' =>
+              match rr with
+              | Yield => (acc ++ show_form_result FNoFuel, s', x')
+              | _ =>
+                  let line := match rr with
+                              | Done c => show_form_result (FOk c) ++ show_state s' None
+                              | Failed e msg tr => show_form_result (FErr e msg) ++ show_state s' tr
+                              | Yield => [] end in
+                  match rest with
+                  | Some r' => sliced_state_text_all nsl f m x' r' s' (acc ++ line)
+                  | None => (acc ++ line, s', x')
+                  end
+              end
+          | RErr e msg s' => (acc ++ show_form_result (FErr e msg), s', x')
+          | RPanic k => (acc ++ show_form_result (FPanic k), s, x')
+          | RNoFuel => (acc ++ S_ " NOFUEL"%string, s, x')
+          end
+      | Err e => (acc ++ show_form_result (FErr e []), s, x)
+      | Panic k => (acc ++ show_form_result (FPanic k), s, x)
+      | NoFuel => (acc ++ S_ " NOFUEL"%string, s, x)
+      end
+  end.
+Fixpoint run_forms_sliced_state (m x : N) (forms : list text) (s : vm) (acc : list N) : list N :=
+  match forms with
+  | [] => acc
+  | t :: r =>
+      let '(o, s', x') := sliced_state_text_all SLICES (S (length t)) m x t s [] in
+      run_forms_sliced_state m x' r s' (acc ++ S_ " |"%string ++ o)
+  end.
+Definition run_sliced_state_from (b : option vm) (m x : N) (forms : list text) : list N :=
+  match b with
+  | None => S_ "BOOTFAIL"%string
+  | Some s0 => S_ "STATE"%string ++ run_forms_sliced_state m x forms s0 []
+  end.
+
 (* --------------------- stack high-water mark at instruction boundaries (75) *)
 Fixpoint step_hw (fuel : nat) (hw : N) (s : vm) : res run_result * N :=
   match fuel with
@@ -256,6 +307,11 @@ Definition run_vm (c : list N) : list N :=
   | 75 :: n :: rest =>
       match take_texts (N.to_nat n) rest with
       | Some forms => run_hw_from booted forms
+      | None => S_ "BADCASE"%string
+      end
+  | 77 :: b :: n :: rest =>
+      match take_texts (N.to_nat n) rest with
+      | Some forms => run_sliced_state_from booted 0 b forms
       | None => S_ "BADCASE"%string
       end
   | _ => S_ "BADCASE"%string
